@@ -21,6 +21,7 @@ import math
 import multiprocessing as mp
 import os
 import random
+import signal
 import sys
 import time
 import traceback
@@ -54,6 +55,7 @@ CLASSES = ['LinkedListNNPS', 'BoxSortNNPS', 'DictBoxSortNNPS',
            'StratifiedSFCNNPS', 'OctreeNNPS', 'CompressedOctreeNNPS']
 RATIO_LIMIT = 40.0            # extent / cell_size per axis (memory of key tables)
 BAND = 2.0 ** -40
+CHILD_TIMEOUT = 90           # seconds for one (scenario, class) run
 
 
 # --------------------------------------------------------------------------
@@ -75,7 +77,6 @@ def _pick_knobs(rng, cname, hratio_hint):
         k['table_size'] = rng.choice([131072, 131072, 32])
     elif cname == 'StratifiedSFCNNPS':
         k['num_levels'] = rng.choice([1, 2, 3])
-        k['asymmetric'] = rng.choice([True, True, False])
     elif cname in ('OctreeNNPS', 'CompressedOctreeNNPS'):
         k['leaf_max_particles'] = rng.choice([10, 10, 1, 3])
         k['test_parallel'] = rng.choice([False, False, True])
@@ -594,22 +595,53 @@ def run_class(scn, cname, cfg, want_states=None):
     return res
 
 
+def _run_isolated(scn, cname):
+    """run one class in its own forked process: heap corruption or a crash in
+    the compiled code is then attributed to the class that caused it"""
+    rd, wr = os.pipe()
+    pid = os.fork()
+    if pid == 0:
+        code = 0
+        try:
+            os.close(rd)
+            signal.alarm(CHILD_TIMEOUT)      # a hang becomes `signal 14`
+            try:
+                r = run_class(scn, cname, scn['cfgs'][cname])
+            except Exception:      # noqa
+                r = {'cname': cname, 'machinery': traceback.format_exc()[-1500:]}
+            with os.fdopen(wr, 'w') as fh:
+                fh.write(json.dumps(r))
+        except BaseException:      # noqa
+            code = 3
+        finally:
+            os._exit(code)
+    os.close(wr)
+    with os.fdopen(rd) as fh:
+        data = fh.read()
+    _, status = os.waitpid(pid, 0)
+    if os.WIFSIGNALED(status):
+        return {'cname': cname, 'crash': 'signal %d' % os.WTERMSIG(status)}
+    try:
+        r = json.loads(data)
+    except ValueError:
+        return {'cname': cname, 'crash': 'exit status %d, no result' % status}
+    if os.WEXITSTATUS(status) != 0:
+        # the result was produced, the process died while tearing down
+        r['crash_at_exit'] = os.WEXITSTATUS(status)
+    return r
+
+
 def worker_main(jobs, path):
-    """jobs: list of (scn, [class names]); one JSON line per class run, with a
-    begin marker first so that a crash is attributable"""
+    """jobs: list of (scn, [class names]); one JSON line per class run"""
     # the compiled code prints domain-size warnings: keep them out of the log
     dn = os.open(os.devnull, os.O_WRONLY)
     os.dup2(dn, 1)
+    os.dup2(dn, 2)
     with open(path, 'a') as fh:
         for scn, names in jobs:
             for cname in names:
-                fh.write(json.dumps({'begin': [scn['sid'], cname]}) + '\n')
-                fh.flush()
                 t1 = time.time()
-                try:
-                    r = run_class(scn, cname, scn['cfgs'][cname])
-                except Exception as e:      # noqa
-                    r = {'cname': cname, 'machinery': traceback.format_exc()[-1500:]}
+                r = _run_isolated(scn, cname)
                 r['sid'] = scn['sid']
                 r['secs'] = time.time() - t1
                 fh.write(json.dumps(r) + '\n')
@@ -733,6 +765,12 @@ def nondy_model_text(scn, st, ptxt):
 
 # --------------------------------------------------------------------------
 
+def crash_condition(scn):
+    if any(len(a['h']) == 0 for a in scn['arrays']):
+        return '-with-empty-array'
+    return ''
+
+
 def known_keys():
     import vlib
     try:
@@ -747,13 +785,17 @@ def evaluate(scns, R, work, tag, nproc=16):
     known = known_keys()
     results, crashes = run_workers(scns, work, nproc, tag)
     by_sid = {s['sid']: s for s in scns}
-    for (sid, cname), code in crashes:
-        scn = by_sid[sid]
-        R.prop_fail('C01:%s:crash' % cname,
-                    {'scenario': scn, 'cls': cname},
-                    'a neighbour list for every query',
-                    'process died with exit code %s' % code)
-        R.count('crash:' + cname)
+    if crashes:
+        raise SystemExit('harness worker died: %r' % (crashes[:3],))
+    for (sid, cname), r in sorted(results.items()):
+        if r.get('crash'):
+            scn = by_sid[sid]
+            key = 'C01:%s:crash%s' % (cname, crash_condition(scn))
+            R.count('fail:' + key)
+            if R.d['distribution']['fail:' + key] <= 3:
+                R.prop_fail(key, {'scenario': scn, 'cls': cname, 'cfg': scn['cfgs'][cname]},
+                            'a neighbour list for every query',
+                            'the process running the neighbour search died: %s' % r['crash'])
     # states per scenario: from the first class that produced them
     lines, where = [], []
     states = {}
